@@ -222,6 +222,7 @@ NamesLong == << <<97>>, Rep(109, 127), Rep(109, 128), <<122>> >>
 LookLong == {<<97>>, <<98>>, Rep(109, 127), Rep(109, 128), Rep(109, 129), <<122>>, <<123>>}
 \* incl. names that extend a present name by the first byte of a value's encoding (0x42 '[', 0x40 '{', 0x10 int8)
 LookAB   == {<<>>, <<97>>, <<97, 97>>, <<98>>, <<99>>, <<100>>, <<97, 66>>, <<97, 64>>, <<97, 16>>, <<98, 16, 5>>}
+LookSmall == {<<>>, <<97>>, <<98>>, <<99>>, <<97, 97>>}      \* for the history stages (HistK = 2 squares the number of calls)
 LookRich == {<<>>, <<0>>, <<97>>, <<97, 0>>, <<97, 97>>, <<97, 98>>, <<98>>, <<127>>, <<128>>, <<255>>, <<255, 0>>}
 OpsWalk  == {"enter", "next", "leave"}
 OpsFull  == {"enter", "next", "leave", "full"}
